@@ -177,12 +177,16 @@ type recordingCodec struct {
 	mu      sync.Mutex
 	reports []recordedReport
 	verify  func(llotypes.ChannelDefinition) error
+	inner   llo.ReportCodec // if set, the bytes come from this real codec
 }
 
 func (c *recordingCodec) Encode(r llo.Report, cd llotypes.ChannelDefinition) ([]byte, error) {
 	c.mu.Lock()
 	defer c.mu.Unlock()
 	c.reports = append(c.reports, recordedReport{r, cd})
+	if c.inner != nil {
+		return c.inner.Encode(r, cd)
+	}
 	return []byte(fmt.Sprintf("report-%d", r.ChannelID)), nil
 }
 func (c *recordingCodec) Verify(cd llotypes.ChannelDefinition) error {
